@@ -110,6 +110,10 @@ def gen_scenarios(tier, seed):
     for i in range(1 * scale):
         out.append(base(rng, family="full-queue-at-shutdown", pool=rng.choice([1, 2, 4]), n_ext=2, nmsgs=1600, flags_fixed=0, dst_mode=4,
                         dst_k=0, gate=1, gate_dst=0, shutdown_behind_gate=5))
+    # C8: sends accepted by workers that are still STARTING (and by the virtual thread), shutdown before they look at the flag
+    for i in range(6 * scale):
+        out.append(base(rng, family="shutdown-overtakes-starting-workers", pool=rng.choice([1, 2, 4, 8]), start_mode=2, n_ext=0, nmsgs=0,
+                        flags_fixed=0, dst_mode=0, shutdown_behind_gate=6))
     # D: sends racing with thread start (STARTING)
     for i in range(8 * scale):
         pool = rng.choice([1, 2, 4, 16])
